@@ -1,8 +1,109 @@
-/- Driver handler of C01: protocol line (already split into tokens, without the leading "c01") -> answer. -/
+/-
+  Driver handler of C01: one line = one workbook + one whole history.
+
+    c01 <cfg> <n>  <spec>*n  <op>*
+      cfg  : nodata | stored | loaded
+      spec : I <val> | F ref j | F cat k j*k | F add a b | F sum k j*k | F cnt k j*k | F idx r row col
+             | R <rows> <cols> j*(rows*cols)
+      op   : S i <val> | E i
+  Answer: one item per operation joined by ';' — the value returned by `evaluate` (scalar token, or `a:r:c v…` for a
+  range), `ok`/`rej` for a `set_value` (rej = the address is not a value cell in the cell map: AssertionError).
+  The model runs with the repaired equality test `typedEq`.  Trusted glue, not part of any theorem.
+-/
 import Pycel.Model.Proto
+import Pycel.Model.EngineInst
 namespace Pycel.Drv.C01
+open Pycel Pycel.Engine Pycel.EngineInst
+
+partial def takeNats : Nat → List String → Option (List Nat × List String)
+  | 0, ts => some ([], ts)
+  | k+1, t :: ts => do
+    let j ← t.toNat?
+    let (js, rest) ← takeNats k ts
+    some (j :: js, rest)
+  | _, [] => none
+
+partial def parseSpecs : Nat → List String → Option (List Spec × List String)
+  | 0, ts => some ([], ts)
+  | k+1, ts => do
+    let (sp, rest) ← (match ts with
+      | "I" :: v :: rest => do some (Spec.inp (← Val.dec? v), rest)
+      | "F" :: "ref" :: j :: rest => do some (Spec.fml (.ref (← j.toNat?)), rest)
+      | "F" :: "add" :: a :: b :: rest => do some (Spec.fml (.add (← a.toNat?) (← b.toNat?)), rest)
+      | "F" :: "idx" :: r :: row :: col :: rest => do
+          some (Spec.fml (.idx (← r.toNat?) (← row.toNat?) (← col.toNat?)), rest)
+      | "F" :: "cat" :: k :: rest => do
+          let (js, rest) ← takeNats (← k.toNat?) rest
+          some (Spec.fml (.cat js), rest)
+      | "F" :: "sum" :: k :: rest => do
+          let (js, rest) ← takeNats (← k.toNat?) rest
+          some (Spec.fml (.sum js), rest)
+      | "F" :: "cnt" :: k :: rest => do
+          let (js, rest) ← takeNats (← k.toNat?) rest
+          some (Spec.fml (.cnt js), rest)
+      | "R" :: r :: c :: rest => do
+          let r ← r.toNat?
+          let c ← c.toNat?
+          let (js, rest) ← takeNats (r*c) rest
+          some (Spec.rng (chunk c r js), rest)
+      | _ => none : Option (Spec × List String))
+    let (sps, rest) ← parseSpecs k rest
+    some (sp :: sps, rest)
+
+partial def parseOps : List String → Option (List (Op EV))
+  | [] => some []
+  | "S" :: i :: v :: rest => do
+    let ops ← parseOps rest
+    some (.set (← i.toNat?) (.sc (← Val.dec? v)) :: ops)
+  | "E" :: a :: rest => do
+    let ops ← parseOps rest
+    some (.eval (← a.toNat?) :: ops)
+  | _ => none
+
+def encEV : EV → String
+  | .sc v => v.enc
+  | .arr rows => encArr rows
+
+/-- results of a `.xlsx` written by Excel: every formula's value at the file's inputs (obtained by evaluating
+    everything once; equals `denote` by I1) -/
+def storedOf (wb : Workbook) (f : Nat → (Nat → EV) → EV) (inp : Nat → EV) : Nat → Option EV :=
+  let s := (List.range wb.n).foldl (fun s a => (evaluate wb f a s).2) (initNoData inp)
+  fun j => match wb.kind j with
+    | .formula => s.cache j
+    | _ => none
+
+def runOps (wb : Workbook) (f : Nat → (Nat → EV) → EV) : State EV → List (Op EV) → List String
+  | _, [] => []
+  | s, .set i v :: h =>
+    let ok := decide (i < wb.n) && decide (wb.kind i = .input) && s.built i
+    (if ok then "ok" else "rej") :: runOps wb f (setValue wb typedEq i v s) h
+  | s, .eval a :: h =>
+    let r := evaluate wb f a s
+    (if a < wb.n then encEV r.1 else "!unknown-node") :: runOps wb f r.2 h
 
 def handle : List String → String
+  | "c01" :: cfg :: n :: rest =>
+    match n.toNat? with
+    | none => "!bad-n"
+    | some n =>
+      match parseSpecs n rest with
+      | none => "!bad-spec"
+      | some (specs, rest) =>
+        match parseOps rest with
+        | none => "!bad-op"
+        | some ops =>
+          if !wfCheck specs then "!notwf" else
+          let wb := mkWb specs
+          let f := sem specs
+          let inp := inputsOf specs
+          let s0? : Option (State EV) :=
+            if cfg = "nodata" then some (initNoData inp)
+            else if cfg = "stored" then some (initStored inp (storedOf wb f inp))
+            else if cfg = "loaded" then some (initLoaded wb f inp)
+            else none
+          match s0? with
+          | none => "!bad-cfg"
+          | some s0 => ";".intercalate (runOps wb f s0 ops)
   | _ => "!bad-op"
 
 end Pycel.Drv.C01
